@@ -34,7 +34,7 @@ CLAIMS = {
             'Decides that ephemeral clients cannot veto or fast-forward the publisher, that ?? sources have no request channel, per-source id tracking and reset exemptions. Also: no socket option that turns a publish into a blocking call, bounded PUB queue, an ephemeral CLOSE never touches the shared expected id, request marks per source.',
             'DESIGN.md §2 C05', 'Not decided: "never delays the publisher" as a timing statement.'),
     'C06': ('path evaluation of the wait loop, poller register/unregister typestate pairing, existence and reachability of the adoption and removal sites; abandon-implies-fast-forward on every path of poll_recv, must-unregister of complete sources, per-source handshake mark',
-            'Decides only the presence of each mechanism whose absence yields a permanent stall for some fault history (re-request, re-registration, id adoption in both directions, dead-client removal, handshake). Also: every "abandon" of poll_recv adopts the consumer's id (restart at the initial id included), HELLO under balance, the driver keeps waiting for requests.',
+            'Decides only the presence of each mechanism whose absence yields a permanent stall for some fault history (re-request, re-registration, id adoption in both directions, dead-client removal, handshake). Also: every "abandon" of poll_recv adopts the id the consumer asked for (restart at the initial id included), HELLO under balance, the driver keeps waiting for requests.',
             'DESIGN.md §2 C06', 'Not decided: liveness under fair schedules, recovery time bounds.'),
     'C07': ('path evaluation of send_maybe under balance (socket list shape, candidate filter), of the balanced branch of recv_once and of the prefetch guard',
             'Decides one-socket-per-balanced-publish, one-source-at-a-time at the rejoin, no prefetch at the first hop, the balanced mark in the envelope, HELLO to all outputs.',
@@ -52,7 +52,7 @@ CLAIMS = {
             'Decides the per-accessor invariants that make every history safe: caches filled only from read-only sources, promised copies built on fresh arrays, read-only never lifted in place, read-only views frozen, conversion table. Also: a frame built on an array never inherits an encoding, accessors read rows/columns/label of the declared state, a frame hands out itself only when it already has the requested format and mutability, pickle round trip field by field.',
             'DESIGN.md §3 C10', 'Not decided: pixel values; multi-step histories beyond the per-accessor invariants.'),
     'C12': ('path evaluation of the endpoint constructors for the port offsets, constant folding of TCP_DEFAULT_PORT, def-use shape of the source rewrite, delimiter-set extraction; structural idiom tables for id assignment, bind->connect address conversion, the address cache and the order of presence tests vs. normalisation',
-            'Decides the arithmetic and grammar agreements the CLI wiring relies on: port span {p, p+1} at both ends vs. allocation step and default port, complete scan before allocation, suffix preservation, delimiter agreement. Also: generated ids (class name / class name + index, only for filters without id), bind address -> connect address pairing for user-given and allocated outputs, the cache of resolved addresses holds bare addresses, explicitly empty switches stay the user's choice.',
+            'Decides the arithmetic and grammar agreements the CLI wiring relies on: port span {p, p+1} at both ends vs. allocation step and default port, complete scan before allocation, suffix preservation, delimiter agreement. Also: generated ids (class name / class name + index, only for filters without id), bind address -> connect address pairing for user-given and allocated outputs, the cache of resolved addresses holds bare addresses, explicitly empty switches stay as the user wrote them.',
             'DESIGN.md §3 C12', 'Not decided: the full wiring as a function of arbitrary argument values (only the structural clauses listed).'),
     'C13': ('path evaluation of RollLog.write / new_logfile / prune_logfiles, lock-dominance query over all stores to the shared state; decision tables over the path sets of read() (unrolled twice) and write(); regex-AST vs f-string template agreement of log file names; self-call havoc and exception-handler exploration in the evaluator',
             'Decides that a new log file cannot reuse an existing name (exclusive mode or timestamp forced above the newest), that the budget is tested after every write, that the newest file is never unlinked and the reader is re-based, and the lock discipline. Also: write() framing / accounting / roll-over / new-file protocol, read() bounds, give-up, continuation, refresh and decode tables, file names written match the scan pattern field by field and are listed under the timestamp they encode (D13), refresh entry table, the step after a refresh (D15), tell() positions.',
